@@ -7,6 +7,7 @@ EXPLANATION = (
     "compared against a bound with an error exit; or a depth parameter passed as depth+1 and compared against a bound). The call graph of the "
     "parser minus the guarded functions must be acyclic. The step budget (ensure_budget) bounds work, not depth. The AST-walking cycles "
     "(planner, validators, evaluator) are bounded by AST depth and are listed as dependent. Panic-freedom, allocation failure and timeliness are not decided."
+    " The claim is a list of panic / abort classes, each decided structurally: C16.1 parser recursion cycles pass a depth guard; C16.2 no unwrap/expect on repository error types; C16.3 constant-offset str slices are dominated by an ASCII check of the same string; C16.4 no raw i64 arithmetic outside the evaluator; C16.5 Value::Int payloads are sign-tested before a cast to unsigned; C16.6 chrono's panicking TimeDelta constructors only get arguments bounded by construction (BITS); C16.7 no raw arithmetic on saturating_* results; C16.8 every parser loop that grows the expression tree iteratively passes the height guard; C16.9 plan-stacking parser loops are bounded by a constant budget (known finding). Signed arithmetic inside the temporal evaluator, computed slice indices and allocation sizes are not decided."
 )
 
 PARSER_PREFIX = ("nervusdb_query::parser::", "nervusdb_query::parser_helper_exists::")
